@@ -74,6 +74,43 @@ pub(crate) fn c19_bounded_oneshot_vs_incremental_len3(s: &mut impl Src) {
     assert!(get_crc32(&buf[..n]) == !c32);
 }
 
+// one-shot == incremental across the 16-byte fast path of get_crc32 and every remainder length (bounded stand-in: every prefix of one fixed 40-byte string):
+// decides changes that restructure get_crc16 / get_crc32 beyond what the extractor can follow (iterator chunks, unrolling)
+pub(crate) fn c19_bounded_crc32_len20(s: &mut impl Src) {
+    // CBMC cannot carry 16 symbolic table indices per block (measured: no answer in 30 min): the data is one concrete 40-byte string
+    // and only the length is symbolic (80 s; a concrete sweep over the 41 lengths takes 560 s)
+    let n = s.usize_below(41);
+    let mut buf = [0u8; 40];
+    let mut i = 0;
+    while i < 40 {
+        buf[i] = (i as u8).wrapping_mul(37).wrapping_add(11);
+        i += 1;
+    }
+    let mut c32 = 0xFFFF_FFFFu32;
+    let mut i = 0;
+    while i < 40 {
+        if i < n {
+            c32 = update_crc32(c32, buf[i]);
+        }
+        i += 1;
+    }
+    assert!(get_crc32(&buf[..n]) == !c32);
+}
+pub(crate) fn c19_bounded_crc16_len9(s: &mut impl Src) {
+    let n = s.usize_below(10);
+    let mut buf = [0u8; 9];
+    let mut c16 = 0u16;
+    let mut i = 0;
+    while i < 9 {
+        buf[i] = s.u8();
+        if i < n {
+            c16 = update_crc16(c16, buf[i]);
+        }
+        i += 1;
+    }
+    assert!(get_crc16(&buf[..n]) == c16);
+}
+
 include!("/verif/kc/harness_macro.rs");
 kc_harness! {
     c19_crc16_table_entry;
@@ -82,5 +119,7 @@ kc_harness! {
     c19_update_crc16_step;
     c19_update_crc32_step;
     c19_bounded_oneshot_vs_incremental_len3, unwind = 5;
+    c19_bounded_crc32_len20, unwind = 42;
+    c19_bounded_crc16_len9, unwind = 11;
 }
 
